@@ -31,7 +31,7 @@ def argv_cases():
     # ---- sync
     for truth in ("class", "function", "argparse_function", None, "bogus"):
         for combo in itertools.product(("absent", "existing", "missing"), repeat=3):
-            for names in (True, False):
+            for names in (True, False, "also_for_absent_files"):
                 cases.append({"cmd": "sync", "truth": truth, "files": list(combo), "names": names})
     # ---- sync_properties
     for fin in ("existing", "missing", "absent"):
@@ -184,6 +184,8 @@ class C20(core.Check):
             given, existing = 0, {}
             for kind, st in zip(pj.KINDS, case["files"]):
                 if st == "absent":
+                    if case["names"] == "also_for_absent_files":
+                        argv += [FLAG[kind] + "-name", pj.DEF_NAMES[kind]]  # a name without a file: harmless, must be ignored
                     continue
                 p = os.path.join(root, pj.FILES[kind])
                 if st == "existing":
